@@ -30,7 +30,7 @@ MALFORMED = ["alg-none", "alg-hs256", "alg-rs256", "alg-es256k", "alg-eddsa", "n
              "prevs-string", "prevs-nonhex", "prevs-short", "prevs-number", "lc-string", "lc-fraction", "lc-plus-2-32",
              "lc-minus-2-32", "lc-negative", "kid-and-jwk", "no-kid-no-jwk", "cty-no-slash", "payload-nonhex",
              "two-signatures", "zero-signatures", "truncated", "empty"]
-BADSIG = ["sig-flipped", "sig-other-key", "sig-header-altered", "sig-payload-altered", "kid-unknown", "kid-wrong-key"]
+BADSIG = ["sig-flipped", "sig-other-key", "sig-header-altered", "sig-payload-altered", "kid-unknown", "kid-wrong-key", "kid-later-key", "kid-late-doc"]
 VALID_VARIANTS = ["", "kid-ok"]
 
 
@@ -104,9 +104,9 @@ def concretise(scripts, uni, rnd):
     counters = {"w": rnd.randrange(len(MALFORMED)), "u": rnd.randrange(len(BADSIG)), "a": rnd.randrange(len(VALID_VARIANTS))}
     for sc in scripts:
         offered = set(s.get("t") for s in sc["steps"])
-        d = {}
+        d = dict(sc.get("defects") or {})      # directed scripts may fix the concrete class themselves
         for cls, variants in (("w", MALFORMED), ("u", BADSIG), ("a", VALID_VARIANTS)):
-            if cls in uni and cls in offered:
+            if cls in uni and cls in offered and cls not in d:
                 v = variants[counters[cls] % len(variants)]
                 counters[cls] += 1
                 if v:
@@ -166,6 +166,11 @@ def directed_admit_scripts():
     out.append(dict(id="admit-d-shared-payload-1", steps=add("p1", "r", "none") + add("p1", "a", "good") + fnerr("p1", "s", "bad") + add("p1", "s", "good")))
     out.append(dict(id="admit-d-shared-payload-2", steps=add("p1", "r", "good") + add("p1", "s", "good") + fnerr("p1", "a", "bad") + add("p1", "a", "none")))
     # re-submission of a present transaction with another payload changes nothing
+    # every concrete bad-signature / key-resolution class offered when everything else about the transaction is fine (prevs stored, clock
+    # right): the round-robin assignment over witness behaviours does not guarantee that each class meets such a state
+    for v in BADSIG:
+        out.append(dict(id="admit-d-badsig-" + v, defects={"u": v},
+                        steps=add("p1", "r", "good") + add("p1", "a", "good") + [dict(a="Offer", p="p1", t="u", pl="good"), dict(a="ReadVerify", p="p1", t="u", res="rejected")]))
     out.append(dict(id="admit-d-resubmit", steps=add("p1", "r", "good") + add("p1", "a", "good") + present("p1", "a", "bad") + present("p1", "r", "none")))
     return out
 
@@ -206,7 +211,23 @@ def directed_notify_scripts():
     return out
 
 
-FAMILY = {"C06": ["admit", "add"], "C08": ["add", "repair"], "C14": ["notify", "paylater", "dup"]}
+def jobfault_scripts():
+    """C14, family jobfault: directed behaviours of Dag.tla with the real retry budget: the job read of the first attempt fails and the
+    receiver then succeeds / fails for a while; a receiver that keeps failing with the 'context not allowed' error across restarts."""
+    add = lambda p, t, pl: [dict(a="Offer", p=p, t=t, pl=pl), dict(a="ReadVerify", p=p, t=t, res="verified"),
+                            dict(a="LockWrite", p=p, t=t, res="written"), dict(a="Commit", p=p, t=t), dict(a="AfterCommit", p=p, t=t)]
+    out = []
+    out.append(dict(id="jobfault-read-then-ok", steps=[dict(a="NotifyReadFail", s="s1", t="r")] + add("p1", "r", "good"), restarts=0))
+    out.append(dict(id="jobfault-read-then-ok-2", steps=[dict(a="NotifyReadFail", s="s1", t="a")] + add("p1", "r", "none") + add("p1", "a", "good"), restarts=1))
+    out.append(dict(id="jobfault-read-then-fail-ok", steps=[dict(a="NotifyReadFail", s="s1", t="r")] + add("p1", "r", "good") +
+                    [dict(a="NotifyCall", s="s1", t="r", res="fail"), dict(a="NotifyMark", s="s1", t="r", res="fail")], restarts=0))
+    out.append(dict(id="jobfault-ctx-forever", steps=add("p1", "r", "good"), default={"": "failctx"}, restarts=2))
+    out.append(dict(id="jobfault-ctx-then-restart", steps=add("p1", "r", "good") + [dict(a="NotifyCall", s="s1", t="r", res="failctx"), dict(a="NotifyMark", s="s1", t="r", res="failctx"), dict(a="Crash")],
+                    default={"": "failctx"}, restarts=1))
+    return out
+
+
+FAMILY = {"C06": ["admit", "add"], "C08": ["add", "repair"], "C14": ["notify", "paylater", "dup", "jobfault"]}
 
 
 def run(prop, tier, seed, replay=None):
@@ -232,7 +253,7 @@ def run(prop, tier, seed, replay=None):
     n_wit_total = 0
     live = None
     for fam in FAMILY[prop]:
-        if fam in ("repair", "paylater", "dup"):
+        if fam in ("repair", "paylater", "dup", "jobfault"):
             check_cfg, gen_cfg = "Dag.%s.quick.cfg" % fam, "Dag.%s.gen.cfg" % fam
         else:
             check_cfg = "Dag.%s.%s.cfg" % (fam, "quick" if quick else "thorough")
@@ -257,10 +278,13 @@ def run(prop, tier, seed, replay=None):
         uni = {k: UNIVERSE[k] for k in tx}
         scripts = to_scripts(chosen, fam + "-w") + to_scripts(sim, fam + "-s")
         props = {"add": ["C06", "C08"], "admit": ["C06", "C08"], "repair": ["C08"], "notify": ["C14", "C06", "C08"],
-                 "paylater": ["C14", "C06", "C08"], "dup": ["C14", "C06", "C08"]}[fam]
+                 "paylater": ["C14", "C06", "C08"], "dup": ["C14", "C06", "C08"], "jobfault": ["C14"]}[fam]
         if fam == "notify":
             scripts += budget_scripts() + directed_notify_scripts()
             uni = {k: UNIVERSE[k] for k in set(tx) | {"r", "a", "s"}}
+        if fam == "jobfault":
+            scripts += jobfault_scripts()
+            uni = {k: UNIVERSE[k] for k in set(tx) | {"r", "a"}}
         if fam == "add":
             scripts += directed_add_scripts()
             uni = {k: UNIVERSE[k] for k in set(tx) | {"r", "a", "b", "c", "d", "e", "f"}}
@@ -269,7 +293,7 @@ def run(prop, tier, seed, replay=None):
         if prop == "C06":
             uni, scripts = concretise(scripts, uni, rnd)
         bases = [0, 510] if quick else [0, 510, 1022]
-        if fam in ("admit", "notify", "paylater", "dup"):
+        if fam in ("admit", "notify", "paylater", "dup", "jobfault"):
             bases = [0] if quick else [0, 510]
         for base in bases:
             part = scripts if base == 0 else (scripts[::3] if quick else (scripts if base == 510 else scripts[::2]))
